@@ -11,3 +11,10 @@ func VerifSetRate(m *Meter, r float64) {
 	m.rateAvg = r
 	m.mu.Unlock()
 }
+
+// VerifSetMaxInflight sets the in-flight peak the meter says it has seen recently (same reason as VerifSetRate).
+func VerifSetMaxInflight(m *Meter, n int32) {
+	m.mu.Lock()
+	m.inflightMax = n
+	m.mu.Unlock()
+}
